@@ -143,20 +143,3 @@ pub fn h_fec(n: usize) {
         vcover!(true, "run completed");
     }
 }
-
-#[cfg(kani)]
-mod proofs {
-    use super::*;
-
-    #[kani::proof]
-    #[kani::unwind(5)]
-    fn r_fec() {
-        h_fec(N);
-    }
-
-    #[kani::proof]
-    #[kani::unwind(5)]
-    fn r_fec_empty() {
-        h_fec(0);
-    }
-}
